@@ -59,6 +59,7 @@ func init() {
 	heapSorts["Lib#rscur"] = "(Array Int Int)"
 	libModels = map[string]libModel{
 		"errors.New":        modelNewError,
+		"(*regexp.Regexp).FindAllStringSubmatchIndex": modelFindAllSubmatchIndex,
 		"regexp.MustCompile": func(e *Enc, f *frame, st *State, in *ssa.Call, args []Val, rs *Shape) Val {
 			r := e.alloc(st)
 			return Val{Sh: rs, T: r}
@@ -159,6 +160,9 @@ func (e *Enc) libCall(f *frame, st *State, in *ssa.Call, callee *ssa.Function, a
 	if m, ok := libModels[name]; ok {
 		return m(e, f, st, in, args, resShape)
 	}
+	if names := sortCallNames(in.Common()); names != nil {
+		return e.modelSort(f, st, in, names, resShape)
+	}
 	if libWritesArgs[name] {
 		panic(unsupported("library function that writes its arguments: " + name))
 	}
@@ -199,10 +203,40 @@ func (e *Enc) pureLib(name string, args []Val, resShape *Shape) Val {
 			ts[i] = "(" + fn + " " + strings.Join(as, " ") + ")"
 		}
 	}
+	if ax := timeAxiom(name, as, ts); ax != "" && e.inQuant == 0 {
+		e.assume(ax)
+	}
 	v := build(resShape, &ts)
 	v = e.nameVal(v, "lib")
 	e.assumeLoaded(e.curState, v)
 	return v
+}
+
+// timeAxiom: the time package read through one abstraction, tnano(t) = the
+// instant of t in nanoseconds since the Unix epoch as a mathematical integer
+// (the zero Time is 0001-01-01T00:00:00Z). Monotonic clock readings and
+// locations do not take part in the comparisons (trusted).
+func timeAxiom(name string, as, rs []string) string {
+	const tz = "(- 62135596800000000000)"
+	switch name {
+	case "(time.Time).IsZero":
+		return fmt.Sprintf("(= %s (= (tnano %s) %s))", rs[0], as[0], tz)
+	case "(time.Time).After":
+		return fmt.Sprintf("(= %s (> (tnano %s) (tnano %s)))", rs[0], as[0], as[1])
+	case "(time.Time).Before":
+		return fmt.Sprintf("(= %s (< (tnano %s) (tnano %s)))", rs[0], as[0], as[1])
+	case "(time.Time).Equal":
+		return fmt.Sprintf("(= %s (= (tnano %s) (tnano %s)))", rs[0], as[0], as[1])
+	case "(time.Time).Add":
+		return fmt.Sprintf("(= (tnano %s) (+ (tnano %s) %s))", rs[0], as[0], as[1])
+	case "(time.Time).UTC", "(time.Time).In":
+		return fmt.Sprintf("(= (tnano %s) (tnano %s))", rs[0], as[0])
+	case "time.Unix":
+		return fmt.Sprintf("(= (tnano %s) (+ (* %s 1000000000) %s))", rs[0], as[0], as[1])
+	case "(time.Time).UnixNano":
+		return fmt.Sprintf("(= %s (wrapS64 (tnano %s)))", rs[0], as[0])
+	}
+	return ""
 }
 
 func leavesOfArg(a Val) []leafInfo { return leavesOf(a.Sh) }
@@ -375,6 +409,7 @@ const preludeHead = `(set-logic ALL)
 (declare-const str_empty Str)
 (declare-const f_zero F)
 (declare-const tm_zero Tm)
+(declare-fun tnano (Tm) Int)
 (declare-const u_zero U)
 (declare-fun slen (Str) Int)
 (declare-fun rlen (Str) Int)
@@ -441,6 +476,7 @@ const preludeHead = `(set-logic ALL)
 (define-fun wrapU8 ((x Int)) Int (ite (and (<= 0 x) (<= x 255)) x (mod x 256)))
 (assert (= (slen str_empty) 0))
 (assert (= (rlen str_empty) 0))
+(assert (= (tnano tm_zero) (- 62135596800000000000)))
 `
 
 var preludeSorts = map[string]*Shape{
@@ -449,4 +485,74 @@ var preludeSorts = map[string]*Shape{
 	"i2f": floatShape, "fadd": floatShape, "fsub": floatShape, "fmul": floatShape, "fdiv": floatShape, "fneg": floatShape,
 	"feq": boolShape, "flt": boolShape, "fle": boolShape, "implements": boolShape,
 	"tdiv": intShape, "tmod": intShape, "wrapS64": intShape, "wrapU64": intShape,
+}
+
+// FindAllStringSubmatchIndex(s, n): nil, or a non-empty list of matches in
+// increasing, non-overlapping order; match k is a slice m of at least 4 ints
+// (this package only uses patterns with exactly one, always participating,
+// capture group) with 0 <= m[0] <= m[2] <= m[3] <= m[1] <= len(s), and
+// m_k[1] <= m_{k+1}[0]. Trusted (audited by the thorough tier at run time).
+func modelFindAllSubmatchIndex(e *Enc, f *frame, st *State, in *ssa.Call, args []Val, rs *Shape) Val {
+	res := e.freshVal(rs, f.prefix+in.Name())
+	s := args[1].T
+	base, off, ln := res.Sub[0].T, res.Sub[1].T, res.Sub[2].T
+	e.assume(fmt.Sprintf("(or (= %s 0) (and (> %s 0) (>= %s %s)))", base, ln, base, st.next))
+	nn := e.fresh("next", "Int")
+	e.assume(fmt.Sprintf("(> %s %s)", nn, base))
+	e.assume(fmt.Sprintf("(>= %s %s)", nn, st.next))
+	st.next = nn
+	e.assumeLoaded(st, res)
+	outer := rs.T.Underlying().(*types.Slice).Elem()
+	inner := outer.Underlying().(*types.Slice).Elem()
+	hb := e.heap(st, elemPath(outer)+"#base", KInt)
+	ho := e.heap(st, elemPath(outer)+"#off", KInt)
+	hl := e.heap(st, elemPath(outer)+"#len", KInt)
+	hi := e.heap(st, elemPath(inner), KInt)
+	mk := func(k string) string {
+		mb := fmt.Sprintf("(select (select %s %s) (+ %s %s))", hb.Term, base, off, k)
+		mo := fmt.Sprintf("(select (select %s %s) (+ %s %s))", ho.Term, base, off, k)
+		ml := fmt.Sprintf("(select (select %s %s) (+ %s %s))", hl.Term, base, off, k)
+		m := func(j int) string { return fmt.Sprintf("(select (select %s %s) (+ %s %d))", hi.Term, mb, mo, j) }
+		nb := fmt.Sprintf("(select (select %s %s) (+ %s %s 1))", hb.Term, base, off, k)
+		no := fmt.Sprintf("(select (select %s %s) (+ %s %s 1))", ho.Term, base, off, k)
+		n0 := fmt.Sprintf("(select (select %s %s) (+ %s 0))", hi.Term, nb, no)
+		return fmt.Sprintf("(=> (and (<= 0 %s) (< %s %s)) (and (not (= %s 0)) (>= %s 4) (<= 0 %s) (<= %s %s) (<= %s %s) (<= %s %s) (<= %s (slen %s)) (=> (< (+ %s 1) %s) (<= %s %s))))",
+			k, k, ln, mb, ml, m(0), m(0), m(2), m(2), m(3), m(3), m(1), m(1), s, k, ln, m(1), n0)
+	}
+	e.ctr["qf"]++
+	qf := &quantFact{id: e.ctr["qf"], reach: e.curReach, elems: map[string]bool{elemPath(outer): true}, inst: mk}
+	e.quantFacts = append(e.quantFacts, qf)
+	e.assumed = append(e.assumed, "regexp.FindAllStringSubmatchIndex returns matches in increasing non-overlapping order with group 1 inside the match and inside the text (trusted model)")
+	return res
+}
+
+// modelSort: the backing array of the sorted slice gets arbitrary contents (an
+// over-approximation of "permuted"); nothing else changes. Trusted.
+func (e *Enc) modelSort(f *frame, st *State, in *ssa.Call, names []string, rs *Shape) Val {
+	var sl Val
+	if mi, ok := in.Call.Args[0].(*ssa.MakeInterface); ok {
+		sl = e.value(f, mi.X)
+	} else {
+		sl = e.value(f, in.Call.Args[0])
+	}
+	base := sl.Sub[0].T
+	if e.fc != nil && e.fc.HasModifies && e.noObl == 0 {
+		for _, n := range names {
+			e.frameCheckBase(f, st, base, n, in, "false")
+		}
+	}
+	for _, n := range names {
+		h, ok := st.heaps[n]
+		if !ok {
+			st.markDirty(n, newDirty(false, "")) // not used yet in this function: unknown contents from here on
+			continue
+		}
+		nh := e.newHeapVersion(h, "s")
+		// every other row keeps its value
+		nh.Prev, nh.IsFrm = h, true
+		nh.Except = []string{base}
+		nh.Bound = "" 
+		st.heaps[n] = nh
+	}
+	return Val{Sh: rs}
 }
